@@ -25,7 +25,7 @@ for pid in ids:
 man = dict(
     version=1,
     setup_cmd='./tools/setup.sh',
-    hooks=dict(guard='rustaudio_dasp_verif', enable='RUSTFLAGS="--cfg rustaudio_dasp_verif" (only the Kani graph-node harnesses use it)',
+    hooks=dict(guard='rustaudio_dasp_verif', enable='RUSTFLAGS="--cfg rustaudio_dasp_verif" (used by the Kani crates graph_nodes, noalloc, osc, sinc, envelope: read-only accessors and constructors Input::verif_new, Phase::verif_from_parts, Sinc::verif_idx / verif_frames, Detector::verif_gains / verif_last_env)',
                baseline_off_cmd='cd /repo && cargo test --workspace --no-fail-fast --offline',
                source_commits=meta.HOOK_COMMITS, add_only=True),
     engines=meta.ENGINES,
